@@ -141,7 +141,7 @@ func Compare(op Op, got, want Resp) *Diff {
 			}
 		}
 		return nil
-	case KCreate, KDeleteTbl, KDescribe, KCreateGSI, KDeleteGSI:
+	case KCreate, KDeleteTbl, KDescribe, KCreateGSI, KDeleteGSI, KUpdateTbl:
 		if want.Desc == nil {
 			return nil
 		}
